@@ -713,7 +713,6 @@ def run(ctx):
         for qi, (si, want, got) in enumerate(zip(qidx, exp, parts)):
             gl = got.split(",")
             after_reload = any(s_.startswith(("r,", "j")) for s_ in steps[:si])
-            after_j_only = si > 0 and steps[si - 1] == "j"
             for (p, w), g in zip(want, gl):
                 evaluations += 1
                 dist["H_positions"] += 1
@@ -724,8 +723,8 @@ def run(ctx):
                 ga, gu = (g.split("~") + ["?"])[:2]
                 wa, wu = w.split("~")
                 replay = {"op": op, "step": si, "pos": p, "impl": g, "want": w}
-                if after_j_only and gu == wu and ga != wa:
-                    ctx.violation("serialize:line-info-lost", "history %s: after FromJson(ToJson()) Position(%d) = %s, before the round trip it was %s "
+                if after_reload and gu == wu and ga != wa:
+                    ctx.violation("serialize:line-info-lost", "history %s: after ToJson/FromJson Position(%d) = %s, the set that was written gives %s "
                                   "(//line information did not survive serialization)" % (op[:200], p, ga, wa), replay)
                 elif after_reload and kind in ("reload", "mixed"):
                     ctx.violation("reload:stale-or-wrong-answer", "history %s: after loading another set into the SAME FileSet object, Position(%d) = %s, "
